@@ -19,7 +19,7 @@ from engine.runner import Spec
 
 PKG = "verif_c14_autopkg"
 LIB = "verif_c14_teamlib"
-LAYOUT = {"m1": ["A", "B"], "m2": ["C"], "m3": ["D"], "m4": ["B"], "m5": ["B"]}  # m4, m5 define more classes named B
+LAYOUT = {"m1": ["A", "B"], "m2": ["C"], "_m3": ["D"], "m4": ["B"], "m5": ["B"]}  # m4, m5 define more classes named B; _m3: underscore-named module file
 _DIR = {}
 
 
@@ -175,6 +175,15 @@ def path(c, job):
     # glob is narrowed by pointing the package __path__-independent scan at a per-layout directory
     pkgname = PKG if not cfg.get("missing") else "verif_c14_no_such_pkg"
     _select_modules(modules)
+    # the flags of every module file that is present are decided here, not when (and if) the scan imports the
+    # module: a module the scan skips must not disappear from the expectation as well
+    tags0 = {mn: [cn if mn not in ("m4", "m5") else cn + mn[1] for cn in LAYOUT[mn]] for mn in LAYOUT}
+    for mn in modules:
+        if not reg.flag(f"{mn}.importfail"):
+            for cn in tags0[mn]:
+                if reg.flag(f"{cn}.named"):
+                    reg.flag(f"{cn}.disabled")
+                    reg.flag(f"{cn}.default")
     try:
         s = sel.AutonomousModeSelector(pkgname)
         out = "ok"
@@ -358,7 +367,7 @@ def mkjob(modules, lifecycle=None, K=0, N=0, fixed=None, missing=False):
 
 
 HEALTHY = {f"{cn}.{k}": v for cn in ("A", "B", "C", "D", "B4", "B5") for k, v in (("named", True), ("disabled", False), ("ctorfail", False))}
-HEALTHY.update({"B.dupname": False, "B4.dupname": False, "B5.dupname": False, "m5.importfail": False, "m1.importfail": False, "m2.importfail": False, "m3.importfail": False, "m4.importfail": False})
+HEALTHY.update({"B.dupname": False, "B4.dupname": False, "B5.dupname": False, "m5.importfail": False, "m1.importfail": False, "m2.importfail": False, "_m3.importfail": False, "m4.importfail": False})
 
 
 class C14(Spec):
@@ -382,8 +391,11 @@ class C14(Spec):
                                                      "B.ctorfail": False, "B4.ctorfail": False, "B5.ctorfail": False, "B.disabled": False, "B4.disabled": False,
                                                      "m1.importfail": False, "m4.importfail": False, "m5.importfail": False}),
                     mkjob(["m1", "m2"], lifecycle="calls", K=4, fixed=HEALTHY),
-                    mkjob(["m1"], lifecycle="run", N=3, fixed=HEALTHY), mkjob([], missing=True)]
-        return [mkjob(["m1", "m2"]), mkjob(["m1", "m2", "m3"], fixed={"A.named": True, "A.disabled": False, "A.ctorfail": False, "D.disabled": False}),
+                    mkjob(["m1"], lifecycle="run", N=3, fixed=HEALTHY), mkjob([], missing=True),
+                    # a mode module whose file name starts with an underscore is a module of the package like any other
+                    mkjob(["m1", "_m3"], fixed={"A.ctorfail": False, "A.disabled": False, "m1.importfail": False, "B.named": False, "B.disabled": False,
+                                                "B.default": False, "B.ctorfail": False, "B.dupname": False})]
+        return [mkjob(["m1", "m2"]), mkjob(["m1", "m2", "_m3"], fixed={"A.named": True, "A.disabled": False, "A.ctorfail": False, "D.disabled": False}),
                 mkjob(["m1", "m2"], lifecycle="calls", K=5, fixed=HEALTHY), mkjob(["m1", "m2"], lifecycle="calls", K=3, fixed={k: v for k, v in HEALTHY.items() if not k.startswith("B.")}),
                 mkjob(["m1", "m4", "m5"], fixed={"A.named": True, "A.disabled": False, "A.ctorfail": False, "B.named": True, "B4.named": True, "B5.named": True,
                                                  "B.ctorfail": False, "B4.ctorfail": False, "B5.ctorfail": False, "m1.importfail": False, "m4.importfail": False, "m5.importfail": False}),
